@@ -280,6 +280,15 @@ def replay(pid, path):
     if not cs:
         print(f"replay: case {rec['case']} not found")
         return EXIT_HARNESS
+    if cs[0].kind == "custom":
+        d = cs[0].fn("quick", 0)
+        hit = [v for v in d.get("violations", []) if v.get("obligation") == rec["obligation"]]
+        print(json.dumps(hit[:1], default=str))
+        if hit:
+            print(f"VIOLATION property={pid} replay={path}")
+            return EXIT_VIOLATION
+        print("replay: obligation holds on this tree")
+        return EXIT_OK
     r = Runner(cs[0].name, cs[0].fn, Budget("quick"))
     ok, info = r.replay(env, rec["obligation"])
     print(json.dumps(info, default=str))
